@@ -258,6 +258,18 @@ ESCAPE_END:
 			j = j + 1
 			continue
 
+		case 0xE2:
+			// U+2028 and U+2029 break JavaScript: with HTML escaping on they are escaped even
+			// when UTF-8 normalisation is off
+			if j+2 < valLen && s[j+1] == 0x80 && s[j+2]&^1 == 0xA8 {
+				buf = append(buf, s[i:j]...)
+				buf = append(buf, `\u202`...)
+				buf = append(buf, hex[s[j+2]&0xF])
+				i = j + 3
+				j = j + 3
+				continue
+			}
+
 		case '<', '>', '&':
 			buf = append(buf, s[i:j]...)
 			buf = append(buf, `\u00`...)
